@@ -91,6 +91,16 @@ def oracle(inp):
       return fail("sum of GPs: variance is not the squared-weight sum", sv.tolist(), (w[0] ** 2 * var + w[1] ** 2 * vb).tolist())
     if numpy.abs(s.compute_covariance_of_points(xs) - (w[0] ** 2 * cov + w[1] ** 2 * cb)).max() > 1e-10 * alpha:
       return fail("sum of GPs: covariance is not the squared-weight sum", None, None)
+    if gp.differentiable:   # whichever entry point is used: the joint value-and-gradient one as well
+      jm, jv, jgm, jgv = s.compute_mean_variance_grad_of_points(xs)
+      gm = w[0] * gp.compute_grad_mean_of_points(xs) + w[1] * gpb.compute_grad_mean_of_points(xs)
+      gv = w[0] ** 2 * gp.compute_grad_variance_of_points(xs) + w[1] ** 2 * gpb.compute_grad_variance_of_points(xs)
+      gs = max(1.0, float(numpy.abs(gm).max()), float(numpy.abs(gv).max()))
+      if numpy.abs(jm - sm).max() > 1e-10 * scale or numpy.abs(jv - sv).max() > 10 * tol_v + 1e-10 * alpha:
+        return fail("sum of GPs: joint value-and-gradient entry point disagrees on mean / variance", [jm.tolist(), jv.tolist()], [sm.tolist(), sv.tolist()])
+      if (numpy.abs(jgm - gm).max() > 1e-9 * gs or numpy.abs(s.compute_grad_mean_of_points(xs) - gm).max() > 1e-9 * gs
+          or numpy.abs(s.compute_grad_variance_of_points(xs) - gv).max() > 1e-9 * gs):
+        return fail("sum of GPs: gradient entry points are not the weighted sums of the components' gradients", jgm.tolist(), gm.tolist())
   # appended lie data: the model must be the posterior of the extended data set
   lies = inp.get("lies")
   if lies:
